@@ -1001,6 +1001,23 @@ func (r *Resolver) checkDname(
 }
 
 func (r *Resolver) answer(ctx context.Context, req, resp *dns.Msg, parentDS []dns.RR, zone string, extra ...bool) (*dns.Msg, error) {
+	// The servers of zone speak only for names inside it. An answer that
+	// follows its own alias out of the zone ("x.zone CNAME www.other" plus
+	// an address for www.other in the same message) is the sender's say-so
+	// about someone else's name: drop those records here so the alias target
+	// is resolved from its real authority by the chase instead of being
+	// relayed — and, in an unsigned zone, believed — as sent.
+	if zone != "" && zone != rootzone {
+		czone := dns.CanonicalName(zone)
+		kept := resp.Answer[:0:0]
+		for _, rr := range resp.Answer {
+			if rr != nil && dnsutil.NameInZone(dns.CanonicalName(rr.Header().Name), czone) {
+				kept = append(kept, rr)
+			}
+		}
+		resp.Answer = kept
+	}
+
 	// The internal recursion's target response is held back until
 	// after the outer DNSSEC check. Merging target records into resp
 	// before dnssec.VerifyRRSIG() would force the validator to tolerate
